@@ -1,4 +1,5 @@
-"""LALR(1) table generator with Parsing.py-style precedence resolution.
+"""LR(1) table generator (Pager's PGM, or plain LALR(1)) with Parsing.py-style
+precedence resolution.
 
 This is the table-construction back end of the stand-in `parsing` package
 (see stubs/parsing/__init__.py).  It is a generic, dependency-free module
@@ -14,32 +15,43 @@ Input  (Grammar):
 
 Output (Tables): see class Tables.
 
-Algorithm
----------
-* LR(0) automaton (kernel item sets, closures through a precomputed
-  "leftmost reachable nonterminal" relation).
-* LALR(1) look-ahead sets by DeRemer & Pennello (DR / reads / includes /
-  lookback relations, two digraph passes); terminal sets are Python ints used
-  as bit sets.
-* Action table: all shift and reduce candidates per (state, terminal), then
-  the all-pairs disambiguation of the `parsing` library (Parsing.py
-  `Spec._disambiguate` / `_resolve`):
-      - the action whose precedence dominates wins;
-      - same equivalence class: %split keeps both, reduce/reduce is an
-        error, otherwise associativity decides (%left -> reduce,
-        %right -> shift, %nonassoc -> neither (syntax error), %fail -> error);
-      - unrelated precedences -> unresolved conflict.
-  A table with no unresolved conflict is `pure_lr`.
+Algorithms
+----------
+method='pager' (default; what the upstream `parsing` library does):
+    LR(1) item sets (kernel items + look-ahead bit sets) are generated from a
+    work list; a new goto kernel is merged into an existing state with the same
+    LR(0) core iff the two are *weakly compatible* (Pager 1977: for all pairs
+    of kernel items i != j:  (Li & Mj == 0 and Lj & Mi == 0) or Li & Lj != 0 or
+    Mi & Mj != 0), otherwise a new state is created.  A state whose
+    look-aheads grew is re-processed; when re-processing, an existing
+    transition target is kept only if it still covers / is weakly compatible
+    with the recomputed kernel (so no merge is ever forced).  Unreachable
+    states are pruned and states are renumbered breadth first.
+    The result has LR(1) power with close to LALR(1) size.  (The EdgeQL
+    grammar is NOT LALR(1): plain LALR leaves 5 reduce/reduce conflicts.)
+method='lalr':
+    LR(0) automaton + DeRemer/Pennello look-aheads.  Kept for comparison.
 
-NOT reproduced: the upstream library builds its automaton with Pager's
-"practical general method" (canonical LR(1) item sets merged when weakly
-compatible).  For a grammar whose LALR(1) automaton has no unresolved
-conflict both automata accept exactly the same language and perform the same
-reductions on valid input (LALR may perform a few extra default-free
-reductions before detecting an error; it never shifts an erroneous token),
-but state numbering and the number of states differ.  `lr1_oracle.py`
-provides a lazily built canonical LR(1) driver to cross-check this claim on
-concrete inputs.
+Both: terminal sets are Python ints used as bit sets; closures use a
+precomputed static relation  clos[B] = [(D, gen, pass)]  meaning "the closure of
+an item `. B` with look-ahead L contains the productions of D with look-ahead
+gen | (L if pass)".
+
+Action table: all shift and reduce candidates per (state, terminal), then the
+all-pairs disambiguation of the `parsing` library (Parsing.py
+`Spec._disambiguate` / `_resolve`):
+    - the action whose precedence dominates wins;
+    - same equivalence class: %split keeps both, reduce/reduce is an error,
+      otherwise associativity decides (%left -> reduce, %right -> shift,
+      %nonassoc -> neither (syntax error), %fail -> error);
+    - unrelated precedences -> unresolved conflict.
+A table with no unresolved conflict is `pure_lr`.
+
+NOT reproduced: upstream's exact state numbering / merge order (so state ids
+and the number of states differ); the accepted language and the reductions
+performed on valid input do not depend on those for a conflict-free table.
+`lr1_oracle.py` provides a lazily built canonical LR(1) driver to cross-check
+this on concrete inputs.
 """
 
 from __future__ import annotations
@@ -125,9 +137,13 @@ def resolve(precs: Dict[str, PrecInfo], old_is_shift: bool, old_prec: str,
 # --------------------------------------------------------------------------
 
 class Generator:
-    def __init__(self, g: Grammar, verbose: bool = False):
+    def __init__(self, g: Grammar, verbose: bool = False,
+                 method: str = 'pager'):
+        if method not in ('pager', 'lalr'):
+            raise ValueError(f'unknown method {method!r}')
         self.g = g
         self.verbose = verbose
+        self.method = method
         self.T = len(g.terminals)
         self.N = len(g.nonterminals)
         self.sym_id: Dict[str, int] = {}
@@ -414,6 +430,270 @@ class Generator:
                         F[px] |= F[x]
         return F
 
+
+    # ---- FIRST sets ------------------------------------------------------
+    def compute_first(self):
+        T = self.T
+        first = [0] * (T + self.N)
+        for t in range(T):
+            first[t] = 1 << t
+        nullable = self.nullable
+        changed = True
+        while changed:
+            changed = False
+            for lhs, rhs in self.prods:
+                bits = first[lhs]
+                for s in rhs:
+                    bits |= first[s]
+                    if not nullable[s]:
+                        break
+                if bits != first[lhs]:
+                    first[lhs] = bits
+                    changed = True
+        self.first = first
+        # per item: FIRST(beta) and nullable(beta) where beta is what follows
+        # the symbol after the dot
+        n_items = len(self.item_sym)
+        self.item_first = [0] * n_items
+        self.item_rest_nullable = [True] * n_items
+        for pi, (_lhs, rhs) in enumerate(self.prods):
+            base = self.prod_start[pi]
+            bits = 0
+            nl = True
+            # walk from the right: suffix starting at position d+1
+            for d in range(len(rhs) - 1, -1, -1):
+                self.item_first[base + d] = bits
+                self.item_rest_nullable[base + d] = nl
+                s = rhs[d]
+                if nullable[s]:
+                    bits = bits | first[s]
+                else:
+                    bits = first[s]
+                    nl = False
+
+    # ---- static closure relation ------------------------------------------
+    def compute_static_closure(self):
+        """clos[B] = sorted list of (D, gen_bits, passes) -- see module doc."""
+        T = self.T
+        edges: List[List[Tuple[int, int, bool]]] = \
+            [[] for _ in range(T + self.N)]
+        for pi, (lhs, rhs) in enumerate(self.prods):
+            if rhs and rhs[0] >= T:
+                it = self.prod_start[pi]
+                edges[lhs].append(
+                    (rhs[0], self.item_first[it],
+                     self.item_rest_nullable[it]))
+        clos: List[Optional[List[Tuple[int, int, bool]]]] = \
+            [None] * (T + self.N)
+        for b in range(T, T + self.N):
+            gen: Dict[int, int] = {b: 0}
+            pas: Set[int] = {b}
+            work = [b]
+            inwork = {b}
+            while work:
+                c = work.pop()
+                inwork.discard(c)
+                gc = gen[c]
+                pc = c in pas
+                for d, g, nl in edges[c]:
+                    ng = g | (gc if nl else 0)
+                    np_ = nl and pc
+                    old = gen.get(d)
+                    changed = False
+                    if old is None:
+                        gen[d] = ng
+                        changed = True
+                    elif old | ng != old:
+                        gen[d] = old | ng
+                        changed = True
+                    if np_ and d not in pas:
+                        pas.add(d)
+                        changed = True
+                    if changed and d not in inwork:
+                        inwork.add(d)
+                        work.append(d)
+            clos[b] = [(d, gen[d], d in pas) for d in sorted(gen)]
+        self.clos = clos
+
+    # ---- Pager's practical general method --------------------------------
+    def _expand(self, core, las):
+        """Closure + goto kernels + reductions of an LR(1) state.
+
+        Returns (moves, reds) with
+            moves: {symbol: {item: la_bits}}   (insertion ordered)
+            reds:  {production: la_bits}
+        """
+        T = self.T
+        item_sym = self.item_sym
+        item_first = self.item_first
+        item_rest_nullable = self.item_rest_nullable
+        clos = self.clos
+        la: Dict[int, int] = {}
+        moves: Dict[int, Dict[int, int]] = {}
+        reds: Dict[int, int] = {}
+        for it, L in zip(core, las):
+            s = item_sym[it]
+            if s < 0:
+                pi = self.item_prod[it]
+                reds[pi] = reds.get(pi, 0) | L
+                continue
+            m = moves.get(s)
+            if m is None:
+                moves[s] = {it + 1: L}
+            else:
+                m[it + 1] = m.get(it + 1, 0) | L
+            if s >= T:
+                ctx = item_first[it]
+                if item_rest_nullable[it]:
+                    ctx |= L
+                for d, g, p in clos[s]:
+                    if p:
+                        g |= ctx
+                    old = la.get(d)
+                    la[d] = g if old is None else old | g
+        prod_start = self.prod_start
+        prods_of = self.prods_of
+        for d in sorted(la):
+            L = la[d]
+            for pi in prods_of[d]:
+                it = prod_start[pi]
+                s = item_sym[it]
+                if s < 0:
+                    reds[pi] = reds.get(pi, 0) | L
+                    continue
+                m = moves.get(s)
+                if m is None:
+                    moves[s] = {it + 1: L}
+                else:
+                    m[it + 1] = m.get(it + 1, 0) | L
+        return moves, reds
+
+    @staticmethod
+    def _weakly_compatible(la_a, la_b) -> bool:
+        n = len(la_a)
+        if n == 1:
+            return True
+        for i in range(n):
+            ai = la_a[i]
+            bi = la_b[i]
+            for j in range(i + 1, n):
+                aj = la_a[j]
+                bj = la_b[j]
+                if (ai & bj) == 0 and (aj & bi) == 0:
+                    continue
+                if ai & aj:
+                    continue
+                if bi & bj:
+                    continue
+                return False
+        return True
+
+    def build_pager(self):
+        import collections
+        eps_bit = 1 << self.eps
+        start_core = (self.prod_start[0],)
+        cores: List[Tuple[int, ...]] = [start_core]
+        las: List[List[int]] = [[eps_bit]]
+        by_core: Dict[Tuple[int, ...], List[int]] = {start_core: [0]}
+        trans: List[Dict[int, int]] = [{}]
+        work = collections.deque([0])
+        queued = {0}
+        n_expand = 0
+        n_merge = 0
+        n_split = 0
+        n_redirect = 0
+        while work:
+            q = work.popleft()
+            queued.discard(q)
+            n_expand += 1
+            moves, _reds = self._expand(cores[q], las[q])
+            tr = trans[q]
+            for s in sorted(moves):
+                m = moves[s]
+                core = tuple(sorted(m))
+                new_la = [m[it] for it in core]
+                target = tr.get(s)
+                if target is not None:
+                    tl = las[target]
+                    if all((n | t) == t for n, t in zip(new_la, tl)):
+                        continue
+                    if self._weakly_compatible(tl, new_la):
+                        las[target] = [n | t for n, t in zip(new_la, tl)]
+                        n_merge += 1
+                        if target not in queued:
+                            queued.add(target)
+                            work.append(target)
+                        continue
+                    n_redirect += 1
+                    target = None
+                cands = by_core.get(core)
+                chosen = None
+                if cands:
+                    # prefer a state that already covers the new kernel
+                    for c in cands:
+                        tl = las[c]
+                        if all((n | t) == t for n, t in zip(new_la, tl)):
+                            chosen = c
+                            break
+                    if chosen is None:
+                        for c in cands:
+                            tl = las[c]
+                            if self._weakly_compatible(tl, new_la):
+                                las[c] = [n | t for n, t in zip(new_la, tl)]
+                                n_merge += 1
+                                chosen = c
+                                if c not in queued:
+                                    queued.add(c)
+                                    work.append(c)
+                                break
+                if chosen is None:
+                    chosen = len(cores)
+                    cores.append(core)
+                    las.append(new_la)
+                    trans.append({})
+                    by_core.setdefault(core, []).append(chosen)
+                    if cands:
+                        n_split += 1
+                    queued.add(chosen)
+                    work.append(chosen)
+                tr[s] = chosen
+        # prune unreachable, renumber breadth first
+        order = [0]
+        renum = {0: 0}
+        i = 0
+        while i < len(order):
+            q = order[i]
+            for s in sorted(trans[q]):
+                t = trans[q][s]
+                if t not in renum:
+                    renum[t] = len(order)
+                    order.append(t)
+            i += 1
+        self.n_states = len(order)
+        self.kernels = [cores[q] for q in order]
+        self.kernel_las = [las[q] for q in order]
+        self.trans = [
+            {s: renum[t] for s, t in sorted(trans[q].items())}
+            for q in order]
+        self.reductions = []
+        self.la = []
+        for qi, q in enumerate(order):
+            moves, reds = self._expand(cores[q], las[q])
+            # sanity: every transition target covers the goto kernel
+            for s, m in moves.items():
+                t = trans[q][s]
+                assert cores[t] == tuple(sorted(m)), 'core mismatch'
+                tl = dict(zip(cores[t], las[t]))
+                for it, L in m.items():
+                    assert (tl[it] | L) == tl[it], 'lookahead not covered'
+            self.reductions.append(sorted(reds))
+            self.la.append(dict(reds))
+        self.pager_stats = dict(
+            n_expand=n_expand, n_merge=n_merge, n_split=n_split,
+            n_redirect=n_redirect, n_generated=len(cores),
+            n_distinct_cores=len(by_core))
+        self.log('pager states:', self.n_states, self.pager_stats)
+
     # ---- tables -----------------------------------------------------------
     def build_tables(self) -> Tables:
         g = self.g
@@ -508,7 +788,9 @@ class Generator:
             n_resolved_cells=n_resolved_cells,
             n_sr_pairs=n_sr,
             n_rr_pairs=n_rr,
+            method=self.method,
         )
+        stats.update(getattr(self, 'pager_stats', {}))
         return Tables(
             n_states=self.n_states, action=action, goto=goto, pure_lr=pure,
             stats=stats, conflicts=conflicts, resolutions=resolutions)
@@ -544,10 +826,16 @@ class Generator:
     def run(self) -> Tables:
         self.compute_nullable()
         self.compute_reach()
-        self.build_lr0()
-        self.compute_lookaheads()
+        if self.method == 'lalr':
+            self.build_lr0()
+            self.compute_lookaheads()
+        else:
+            self.compute_first()
+            self.compute_static_closure()
+            self.build_pager()
         return self.build_tables()
 
 
-def generate(g: Grammar, verbose: bool = False) -> Tables:
-    return Generator(g, verbose=verbose).run()
+def generate(g: Grammar, verbose: bool = False,
+             method: str = 'pager') -> Tables:
+    return Generator(g, verbose=verbose, method=method).run()
